@@ -269,7 +269,7 @@ def check_config(aname, bname, fam, tA, tB, alpha, scale, acc, opt=None):
 
 PATHS = {
     'P_LQ': ('L_diagonal', 'Q_generic'), 'P_CC': ('C_arch', 'C_sshape'), 'P_LA': ('L_horizontal', 'A_ellipse_3to1'),
-    'P_zig': 'zigzag', 'P_CL': ('C_loop', 'L_vertical'), 'P_QA': ('Q_nondyadic', 'A_circle_small_ccw'),
+    'P_zig': 'zigzag', 'P_hair': 'hairpin', 'P_CL': ('C_loop', 'L_vertical'), 'P_QA': ('Q_nondyadic', 'A_circle_small_ccw'),
 }
 
 
@@ -279,6 +279,9 @@ def build_path(name, shift_=0j, rot=0):
     if d == 'zigzag':
         pts = [complex(-1.03 + 2.1 * i, (-2.17 if i % 2 == 0 else 4.31) + 0.11 * i) for i in range(6)]
         segs = [Line(pts[i], pts[i + 1]) for i in range(5)]
+    elif d == 'hairpin':
+        # a cubic that doubles back on itself (a one-pass quadrature misjudges its length), then a line
+        segs = [CubicBezier(0j, 3 + 0.1j, -2 + 0.1j, 1 + 0j), Line(1 + 0j, 1 + 3j)]
     else:
         segs = chain(d)
     w = cmath.exp(1j * math.radians(rot))
@@ -294,7 +297,7 @@ def build_path(name, shift_=0j, rot=0):
             out[i] = Arc(out[i - 1].end, out[i].radius, out[i].rotation, out[i].large_arc, out[i].sweep, out[i].end)
         else:
             out[i].start = out[i - 1].end
-    return Path(*out)
+    return AB.derive_path(Path(*out))
 
 
 def check_paths(n1, n2, sh, rot, acc, opt=None):
@@ -355,6 +358,16 @@ def check_paths(n1, n2, sh, rot, acc, opt=None):
         if not (abs(pts[0] - pts[1]) <= 1e-6 * size and abs(pts[2] - pts[3]) <= 1e-6 * size and abs(pts[1] - pts[2]) <= tol):
             acc.violation('path_parameters_incoherent', sig, case, observed=pts)
             return
+        # T1, T2 also address that point on a path built afresh from the same segment values (the T of a point
+        # is a property of the path, not of what was asked of the object before)
+        k1 = [i for i, s_ in enumerate(p1) if s_ is s1][0]
+        k2 = [i for i, s_ in enumerate(p2) if s_ is s2][0]
+        f1 = Path(*[AB.fresh_copy(s_) for s_ in p1])
+        f2 = Path(*[AB.fresh_copy(s_) for s_ in p2])
+        fpts = [f1.point(T1), f1[k1].point(t1), f2[k2].point(t2), f2.point(T2)]
+        if not (abs(fpts[0] - fpts[1]) <= 1e-6 * size and abs(fpts[2] - fpts[3]) <= 1e-6 * size):
+            acc.violation('path_parameters_incoherent', dict(sig, against='freshly_built_equal_paths'), case, observed=fpts)
+            return
 
 
 def tier_params(tier, seed):
@@ -368,6 +381,10 @@ def shards(tier, seed):
     out += [{'what': 'paths', 'p1': a, 'p2': b} for a in PATHS for b in PATHS]
     out += [{'what': 'leg_parallel', 'B': b} for b in list(AB.LINES) + list(AB.QUADS) + list(AB.CUBICS)]
     out.append({'what': 'nearly_parallel'})
+    # the same paths with a history (measured with default or loose accuracy, reversed twice, parsed, strict arcs ...)
+    out += [{'what': 'paths', 'p1': a, 'p2': b, 'pprov': pv} for a in PATHS for b in PATHS
+            for pv in ('measured', 'loosely_measured', 'segments_loosely_measured', 'loosely_measured_reversed_twice', 'reversed_twice', 'parsed',
+                       'strict_arcs', 'module_settings_changed_and_restored') if tier == 'thorough' or (a, b) in (('P_CC', 'P_LQ'), ('P_CL', 'P_zig'), ('P_LA', 'P_QA'), ('P_QA', 'P_CC'), ('P_hair', 'P_zig'), ('P_hair', 'P_LQ'), ('P_CC', 'P_hair'))]
     # non-default options of the solvers (tol=, justonemode=), keyword and positional
     out += [{'what': 'segments', 'A': a, 'B': b, 'opt': oi} for a in SMALL_B_SHAPES + ['A_ellipse_3to1'] for b in SMALL_B_SHAPES + ['A_ellipse_3to1']
             for oi in range(1, len(SEG_OPTS))]
